@@ -101,6 +101,41 @@ func genLoc(r *core.RNG, n, depth int) locSpec {
 		if r.Chance(1, 3) {
 			kind = "order"
 		}
+		if r.Chance(1, 5) {
+			// parts that touch, overlap, repeat or nest: gts.Join / gts.Order reduce
+			// them, and the reduced value is what gets written
+			l := locSpec{Kind: kind}
+			p := r.Range(1, n-8)
+			for i, k := 0, r.Range(2, 5); i < k; i++ {
+				switch r.Intn(6) {
+				case 0:
+					l.Sub = append(l.Sub, locSpec{Kind: "point", A: p})
+				case 1:
+					l.Sub = append(l.Sub, locSpec{Kind: "between", A: p})
+				case 2:
+					w := r.Range(2, 5)
+					l.Sub = append(l.Sub, locSpec{Kind: "range", A: p, B: p + w})
+					p += w
+				case 3:
+					w := r.Range(2, 4)
+					l.Sub = append(l.Sub, locSpec{Kind: "range", A: p, B: p + w, P3: r.Chance(1, 2)})
+					l.Sub = append(l.Sub, locSpec{Kind: "range", A: p + w, B: p + w + 2, P5: r.Chance(1, 2)})
+					p += w + 2
+				case 4:
+					if depth < 2 {
+						l.Sub = append(l.Sub, locSpec{Kind: "join", Sub: []locSpec{{Kind: "point", A: p}, {Kind: "between", A: p}}})
+					}
+				case 5:
+					p += r.Range(0, 1)
+				}
+				if p > n-6 {
+					break
+				}
+			}
+			if len(l.Sub) >= 2 {
+				return l
+			}
+		}
 		k := r.Range(2, 4)
 		seg := n / k
 		if seg < 4 {
